@@ -76,7 +76,7 @@ def draw_gmm(n, loc, scale, pvals, random_state=None) -> Tuple[np.ndarray, np.nd
             X += [generator.normal(loc[k], np.sqrt(scale[k]), size=(n,))]  # scale holds variances
     else:
         for k in range(K):
-            if not np.allclose(scale[k], scale[k].T) or np.any(np.linalg.eigvalsh(scale[k]) < 0):
+            if not np.allclose(scale[k], scale[k].T) or np.any(np.linalg.eigvalsh(scale[k]) < -1e-8):  # same tolerance as numpy's sampler
                 raise ValueError(f"The {k}-th covariance is not positive semi-definite")
             if np.all(scale[k] == 0):
                 raise ValueError(f"The {k}-th covariance matrix contains only zeroes")
